@@ -1,5 +1,8 @@
 import JrsVerif.Common.J
 import JrsVerif.Model.Obj
+import JrsVerif.Model.ObjLit
+import JrsVerif.Model.ObjAssert
+import JrsVerif.Model.ObjSuper
 
 namespace JrsVerif.Drv.C02
 open Lean JrsVerif.J JrsVerif.Obj
@@ -15,7 +18,7 @@ def parseField (j : Json) : Option Field := do
 
 partial def parseT (j : Json) : Option OT := do
   match (← str? j "k") with
-  | "lit" => some (.lit ((← arr? j "fs").toList.filterMap parseField))
+  | "lit" => some (.lit ((← arr? j "fs").toList.filterMap parseField) ((bool? j "as").getD false))
   | "add" => some (.add (← parseT (← val? j "a")) (← parseT (← val? j "b")))
   | "rm" => some (.rm (← parseT (← val? j "o")) (nats (← arr? j "ns")))
   | _ => none
@@ -25,18 +28,158 @@ def sortFields (fs : List Field) : List Field :=
 
 def shapeJson (cs : List Core) : Json :=
   .arr (cs.map (fun c => match c with
-    | .oop fs => obj [("k", .str "oop"), ("fs", .arr ((sortFields fs).map (fun f =>
+    | .oop fs _ => obj [("k", .str "oop"), ("fs", .arr ((sortFields fs).map (fun f =>
         Json.arr #[toJson f.name, toJson f.add, .str (showVis f.vis)])).toArray)]
     | .omitC ns k => obj [("k", .str "omit"), ("ns", ofNats (sortDedup ns)), ("prev", toJson k)])).toArray
 
 def valsJson (l : List Field) : Json :=
   if l.isEmpty then .null else ofNats (l.reverse.map (·.val))
 
+/-- model side of a read: the LITERAL loop of `get_idx_uncached` (`getIdxLit`), values in fold order -/
+def litJson (cs : List Core) (idx : Nat) (x : Nat) : Json :=
+  match getIdxLit cs idx x with
+  | none => .null
+  | some l => ofNats (l.map (·.1.val))
+
 /-- the layer whose definition of `p` a read from the top sees: the top-most core defining it -/
 def layerOf (cs : List Core) (p : Nat) : Option Nat :=
-  match cs.reverse.findIdx? (fun c => match c with | .oop fs => (lookup fs p).isSome | _ => false) with
+  match cs.reverse.findIdx? (fun c => match c with | .oop fs _ => (lookup fs p).isSome | _ => false) with
   | some i => some (cs.length - 1 - i)
   | none => none
+
+/-! #### `obj.asserts`: objects with assertions, read in a given order -/
+
+inductive Cond where
+  | tru
+  | hasAll (n : Nat) (neg : Bool)      -- `std.objectHasAll(self, n)`
+  | has (n : Nat) (neg : Bool)         -- `std.objectHas(self, n)`
+  | readSelf                           -- manifests `self` inside the assertion
+  | readOther (j : Nat)                -- manifests an earlier object (runs ITS assertions)
+  deriving Inhabited
+
+/-- object terms as the evaluator builds them, `ext` = `a { … }` (the `with_super` path) -/
+inductive DT where
+  | lit (fs : List Field) (asrt : Bool) (c : Cond)
+  | add (a b : DT)
+  | ext (a : DT) (fs : List Field) (asrt : Bool) (c : Cond)
+  | rm (o : DT) (ns : List Nat)
+  deriving Inhabited
+
+def parseCond (j : Json) : Cond :=
+  match str? j "c" with
+  | some "hasAll" => .hasAll ((nat? j "n").getD 0) ((bool? j "neg").getD false)
+  | some "has" => .has ((nat? j "n").getD 0) ((bool? j "neg").getD false)
+  | some "self" => .readSelf
+  | some "other" => .readOther ((nat? j "j").getD 0)
+  | _ => .tru
+
+partial def parseDT (j : Json) : Option DT := do
+  let litOf (l : Json) : Option (List Field × Bool × Cond) := do
+    pure ((← arr? l "fs").toList.filterMap parseField, (bool? l "as").getD false,
+          match val? l "cond" with | some c => parseCond c | none => .tru)
+  match (← str? j "k") with
+  | "lit" => let (fs, a, c) ← litOf j; some (.lit fs a c)
+  | "add" =>
+    if (bool? j "ext").getD false then do
+      let (fs, a, c) ← litOf (← val? j "b")
+      some (.ext (← parseDT (← val? j "a")) fs a c)
+    else some (.add (← parseDT (← val? j "a")) (← parseDT (← val? j "b")))
+  | "rm" => some (.rm (← parseDT (← val? j "o")) (nats (← arr? j "ns")))
+  | _ => none
+
+def DT.toOT : DT → OT
+  | .lit fs a _ => .lit fs a
+  | .add a b => .add a.toOT b.toOT
+  | .ext a fs as _ => .add a.toOT (.lit fs as)
+  | .rm o ns => .rm o.toOT ns
+
+/-- the object value through the modelled builder calls (`ext` through `with_super`) -/
+def DT.build : DT → ObjV
+  | .lit fs a _ => evalLiteral none fs a
+  | .add a b => b.build.extendFrom a.build
+  | .ext a fs as _ => evalLiteral (some a.build) fs as
+  | .rm o ns => removeKeys o.build ns
+
+def litConds (fs : List Field) (a : Bool) (c : Cond) : List (Option Cond) :=
+  if fs.isEmpty && !a then [] else [if a then some c else none]
+
+/-- the assertion condition of each core, aligned with the core vector -/
+def DT.conds : DT → List (Option Cond)
+  | .lit fs a c => litConds fs a c
+  | .add a b => a.conds ++ b.conds
+  | .ext a fs as c => a.conds ++ litConds fs as c
+  | .rm o _ => o.conds ++ [none]
+
+def visibleOf (v : Option Vis) : Bool := match v with | some v => v.visible | none => false
+
+/-- model: the `run_assertions` automaton over the modelled builder's flag and core vector -/
+def assertsModel (objs : Array DT) (order : List Nat) : List String :=
+  let built := objs.map (·.build)
+  let world : World := fun o =>
+    match objs[o]?, built[o]? with
+    | some t, some b =>
+      let cs := b.cores
+      (cs.zip t.conds).map (fun (core, oc) =>
+        if core.hasAssert then
+          (match oc with
+           | none => some ⟨[], true⟩
+           | some .tru => some ⟨[], true⟩
+           | some (.hasAll n neg) => some ⟨[], (hasIdx cs cs.length n) != neg⟩
+           | some (.has n neg) => some ⟨[], (visibleOf (visIdx cs cs.length n)) != neg⟩
+           | some .readSelf => some ⟨[o], true⟩
+           | some (.readOther j) => some ⟨[j], true⟩)
+        else none)
+    | _, _ => []
+  let ran0 := (List.range objs.size).filter (fun o => match built[o]? with | some b => b.assertionsRan0 | none => true)
+  let fuel := objs.size + 3
+  let step (hist : List Nat) (x : Nat) : String :=
+    let st0 : ASt := ⟨ran0, [], []⟩
+    match runReads (runAssertions world fuel) (hist ++ [x]) st0 with
+    | some (true, st) => if st.running.isEmpty then "pass" else "running-not-empty"
+    | some (false, st) => if st.running.isEmpty then "assert" else "running-not-empty"
+    | none => "fuel"
+  (order.foldl (fun (acc : List Nat × List String) x =>
+    let r := step acc.1 x
+    (if r == "pass" then acc.1 ++ [x] else acc.1, acc.2 ++ [r])) ([], [])).2
+
+/-- spec: an object passes iff every assertion of every layer holds on the final object
+    (independent of what was read before) -/
+def assertsSpec (objs : Array DT) (order : List Nat) : List String :=
+  let passes : List Bool := (List.range objs.size).foldl (fun (acc : List Bool) k =>
+    match objs[k]? with
+    | none => acc ++ [true]
+    | some t =>
+      let ot := t.toOT
+      let ok := t.conds.all (fun oc => match oc with
+        | none => true
+        | some .tru => true
+        | some (.hasAll n neg) => (specHas ot n) != neg
+        | some (.has n neg) => (visibleOf (specVis ot n)) != neg
+        | some .readSelf => true
+        | some (.readOther j) => acc.getD j false)
+      acc ++ [ok]) []
+  order.map (fun x => if passes.getD x true then "pass" else "assert")
+
+/-! #### `obj.super`: objects containing a bare-`super` value -/
+
+partial def parseXT (j : Json) : Option XT := do
+  match (← str? j "k") with
+  | "base" => some (.base (← parseT (← val? j "t")))
+  | "sup" => some (.sup (← parseT (← val? j "t")) (← nat? j "l"))
+  | "add" => some (.add (← parseXT (← val? j "a")) (← parseXT (← val? j "b")))
+  | "rm" => some (.rm (← parseXT (← val? j "o")) (nats (← arr? j "ns")))
+  | _ => none
+
+def supOf : XT → Option (OT × Nat)
+  | .base _ => none
+  | .sup t l => some (t, l)
+  | .add a b => match supOf a with | some r => some r | none => supOf b
+  | .rm o _ => supOf o
+
+def xshapeJson (cs : List XCore) : Json :=
+  .arr (cs.map (fun c => match c with
+    | .base c => (match shapeJson [c] with | .arr a => a.getD 0 .null | o => o)
+    | .standalone sup _ => obj [("k", .str "standalone"), ("sup", toJson sup)])).toArray
 
 def handle (op : String) (j : Json) : Option Json :=
   match op with
@@ -44,6 +187,52 @@ def handle (op : String) (j : Json) : Option Json :=
     match (do parseT (← val? j "t")) with
     | none => some (bad "obj.shape: parse")
     | some t => some (obj [("model", shapeJson (compile t))])
+  | "obj.asserts" =>
+    match (do
+      let objs := (← arr? j "objs").filterMap parseDT
+      pure (objs, nats (← arr? j "order"))) with
+    | none => some (bad "obj.asserts: parse")
+    | some (objs, order) =>
+      let flags (f : DT → Bool) : Json := .arr (objs.map (fun t => toJson (f t)))
+      some (obj [
+        ("model", obj [("res", .arr ((assertsModel objs order).map Json.str).toArray),
+                       ("shapes", .arr (objs.map (fun t => shapeJson t.build.cores)))]),
+        ("spec", obj [("res", .arr ((assertsSpec objs order).map Json.str).toArray),
+                      ("shapes", .arr (objs.map (fun t => shapeJson (compile t.toOT))))]),
+        ("_hasAssertions", flags (fun t => t.build.hasAssertions))])
+  | "obj.super" =>
+    match (do let x ← parseXT (← val? j "x"); pure (x, nats (← arr? j "names"))) with
+    | none => some (bad "obj.super: parse")
+    | some (x, names) =>
+      -- `standalone_super`: `if !self.sup.super_exists() { bail!(NoSuperFound) }`
+      if (match supOf x with | some (_, l) => l == 0 | none => false) then
+        some (obj [("model", obj [("err", .str "nosuper")]), ("spec", obj [("err", .str "nosuper")])])
+      else
+      let cs := compileX x
+      let ft := flattenT x
+      let mGet (n : Nat) : Json :=
+        let vals := (getX cs n).reverse.flatMap (fun c => match c with
+          | .own f _ => [f.val]
+          | .inner vs _ => vs.map (·.1.val))
+        if vals.isEmpty then .null else ofNats vals
+      let sGet (n : Nat) : Json :=
+        let vals := (specGet ft n).reverse.flatMap (fun f =>
+          if f.val == 0 then
+            (match supOf x with
+             | some (t, l) => (specGet (takeTerm t l) n).reverse.map (·.val)
+             | none => [])
+          else [f.val])
+        if vals.isEmpty then .null else ofNats vals
+      let mPer := names.map (fun n => obj [
+        ("has", toJson (visibleOf (visX cs n))), ("hasAll", toJson (hasX cs n)), ("get", mGet n)])
+      let sPer := names.map (fun n => obj [
+        ("has", toJson (visibleOf (specVis ft n))), ("hasAll", toJson (specHas ft n)), ("get", sGet n)])
+      let keep (l : List Nat) : List Nat := l.filter (fun n => names.contains n)
+      some (obj [
+        ("model", obj [("fields", ofNats (keep (fieldsExX cs false))), ("fieldsAll", ofNats (keep (fieldsExX cs true))),
+                       ("per", .arr mPer.toArray), ("shape", xshapeJson cs)]),
+        ("spec", obj [("fields", ofNats (keep (specFields ft false))), ("fieldsAll", ofNats (keep (specFields ft true))),
+                      ("per", .arr sPer.toArray), ("shape", xshapeJson cs)])])
   | "obj.probe" =>
     match (do let t ← parseT (← val? j "t"); pure (t, nats (← arr? j "names"), nats (← arr? j "probes"))) with
     | none => some (bad "obj.probe: parse")
@@ -53,7 +242,7 @@ def handle (op : String) (j : Json) : Option Json :=
       let mPer := names.map (fun x => obj [
         ("has", toJson (match visIdx cs n x with | some v => v.visible | none => false)),
         ("hasAll", toJson (hasIdx cs n x)),
-        ("get", valsJson ((getIdx cs n x).map (·.1)))])
+        ("get", litJson cs n x)])
       let sPer := names.map (fun x => obj [
         ("has", toJson (match specVis t x with | some v => v.visible | none => false)),
         ("hasAll", toJson (specHas t x)),
@@ -62,7 +251,7 @@ def handle (op : String) (j : Json) : Option Json :=
         | none => Json.null
         | some l => obj [
             ("has", .arr (names.map (fun x => toJson (hasIdx cs l x))).toArray),
-            ("get", .arr (names.map (fun x => valsJson ((getIdx cs l x).map (·.1)))).toArray)])
+            ("get", .arr (names.map (fun x => litJson cs l x)).toArray)])
       let sProbes := probes.map (fun p => match layerOf cs p with
         | none => Json.null
         | some l =>
@@ -79,7 +268,7 @@ def handle (op : String) (j : Json) : Option Json :=
           if contrib.isEmpty then Json.null else
           .arr (contrib.map (fun (_, l) => obj [
             ("has", .arr (names.map (fun x => toJson (hasIdx cs l x))).toArray),
-            ("get", .arr (names.map (fun x => valsJson ((getIdx cs l x).map (·.1)))).toArray)])).toArray
+            ("get", .arr (names.map (fun x => litJson cs l x)).toArray)])).toArray
       let chainS : Json := match optNat j "chain" with
         | none => Json.null
         | some q =>
